@@ -562,21 +562,24 @@ func (s *clientSocket) onEvent(
 		return
 	}
 
+	// Check the state and buffer the event under `receiveBufferMu`: `onConnect` sets the state to connected and then
+	// flushes the buffer under the same mutex, so an event that finds the socket not yet connected is always
+	// in the buffer by the time it is flushed (otherwise it would stay there forever).
+	s.receiveBufferMu.Lock()
 	s.stateMu.RLock()
 	connected := s.state == clientSocketConnStateConnected
 	s.stateMu.RUnlock()
-	if connected {
-		return s.callEvent(handler, header, values, sendAck)
-	} else {
-		s.receiveBufferMu.Lock()
-		defer s.receiveBufferMu.Unlock()
+	if !connected {
 		s.receiveBuffer = append(s.receiveBuffer, &clientEvent{
 			handler: handler,
 			header:  header,
 			values:  values,
 		})
+		s.receiveBufferMu.Unlock()
+		return
 	}
-	return
+	s.receiveBufferMu.Unlock()
+	return s.callEvent(handler, header, values, sendAck)
 }
 
 func (s *clientSocket) callEvent(
